@@ -115,6 +115,9 @@ var signedPrims = []string{"int32", "int64", "float32", "float64", "bool", "stri
 type EmitOpts struct {
 	Prims  []string // leaf type cycle (default: all eight)
 	Offset int      // rotation of the cycle
+	// LowerTags gives every field a parquet tag with the lower-cased field
+	// name, so that column names differ from Go field names.
+	LowerTags bool
 }
 
 // Source emits Go declarations for the forest: root type T, one named struct
@@ -141,11 +144,11 @@ func Source(forest []*Node, o EmitOpts) string {
 			if k.Group {
 				groupNo++
 				tn := fmt.Sprintf("G%d", groupNo)
-				fmt.Fprintf(&sb, "\tN%d %s%s\n", groupNo, prefix, tn)
+				fmt.Fprintf(&sb, "\tN%d %s%s%s\n", groupNo, prefix, tn, tagFor(o, fmt.Sprintf("n%d", groupNo)))
 				later = append(later, pending{tn, k.Kids})
 			} else {
 				leafNo++
-				fmt.Fprintf(&sb, "\tF%d %s%s\n", leafNo, prefix, prims[(leafNo-1+o.Offset)%len(prims)])
+				fmt.Fprintf(&sb, "\tF%d %s%s%s\n", leafNo, prefix, prims[(leafNo-1+o.Offset)%len(prims)], tagFor(o, fmt.Sprintf("f%d", leafNo)))
 			}
 		}
 		sb.WriteString("}\n")
@@ -174,6 +177,31 @@ func EnumSrcs(maxNodes, maxDepth int) []Src {
 		sig := Sig(f)
 		off := SigOffset(sig, 8)
 		out = append(out, Src{Name: fmt.Sprintf("s%05d", i), Type: "T", Sig: fmt.Sprintf("%s@%d", sig, off), Code: Source(f, EmitOpts{Offset: off})})
+	}
+	return out
+}
+
+func tagFor(o EmitOpts, name string) string {
+	if !o.LowerTags {
+		return ""
+	}
+	return " `parquet:\"" + name + "\"`"
+}
+
+// SignedPrims are the leaf types C15 is stated for.
+func SignedPrims() []string { return signedPrims }
+
+// UniformSrcs returns, for each primitive type, every shape with at most
+// maxNodes nodes in which all leaves have that type (named u<type-index>_<n>):
+// a struct made of a single template category is a program the round-robin
+// assignment never produces.
+func UniformSrcs(maxNodes int) []Src {
+	var out []Src
+	for ti, t := range primNames {
+		for i, f := range Enumerate(maxNodes, 3, false) {
+			sig := Sig(f)
+			out = append(out, Src{Name: fmt.Sprintf("u%d_%04d", ti, i), Type: "T", Sig: fmt.Sprintf("%s@=%s", sig, t), Code: Source(f, EmitOpts{Prims: []string{t}})})
+		}
 	}
 	return out
 }
